@@ -142,6 +142,47 @@ def _sends_result(e, f, c):
 # R-RESPAWN-GUARD
 # ---------------------------------------------------------------------------
 
+# truth of the concurrent.futures.Future state predicates on a future that was submitted and not yet dispatched (state PENDING)
+_FUTURE_PRED_ON_PENDING = {"running": False, "cancelled": False, "done": False}
+
+
+def _filtered_count(e, f, x, table):
+    """`sum(<pred> for w in <table>[.values()])` / `len([w for w in <table>... if <pred>])`: True/False = whether <pred> holds
+    for a submitted, undispatched future; None if x is not such a count (or the predicate is not a Future-state test)."""
+    comp = None
+    if isinstance(x, ast.Call) and isinstance(x.func, ast.Name) and x.func.id in ("sum", "len") and len(x.args) == 1 and \
+            isinstance(x.args[0], (ast.GeneratorExp, ast.ListComp)) and len(x.args[0].generators) == 1:
+        comp = x.args[0]
+    if comp is None:
+        return None
+    it = comp.generators[0].iter
+    while isinstance(it, ast.Call) and (isinstance(it.func, ast.Name) and it.func.id in ("list", "tuple") and it.args or
+                                        isinstance(it.func, ast.Attribute) and it.func.attr in ("values", "items", "copy")):
+        it = it.args[0] if isinstance(it.func, ast.Name) else it.func.value
+    if not (e.objs(f, it) & table):
+        return None
+    preds = list(comp.generators[0].ifs) + ([comp.elt] if x.func.id == "sum" and not isinstance(comp.elt, ast.Constant) else [])
+    if not preds:
+        return None
+
+    def ev(p_):
+        if isinstance(p_, ast.UnaryOp) and isinstance(p_.op, ast.Not):
+            v = ev(p_.operand)
+            return None if v is None else not v
+        if isinstance(p_, ast.BoolOp):
+            vs = [ev(v) for v in p_.values]
+            if None in vs:
+                return None
+            return all(vs) if isinstance(p_.op, ast.And) else any(vs)
+        if isinstance(p_, ast.Call) and isinstance(p_.func, ast.Attribute) and not p_.args and p_.func.attr in _FUTURE_PRED_ON_PENDING:
+            return _FUTURE_PRED_ON_PENDING[p_.func.attr]
+        return None
+    vs = [ev(p_) for p_ in preds]
+    if None in vs:
+        return None
+    return all(vs)
+
+
 def r_respawn_guard(e, R):
     a = e.anchors
     f, popc = pid_branch_func(e)
@@ -165,6 +206,15 @@ def r_respawn_guard(e, R):
     outer = ifs[-1] if ifs else None
 
     def classify(x):
+        fc = _filtered_count(e, f, x, a.pending)
+        if fc is not None:
+            # a count of the pending entries that satisfy a Future-state predicate stands for "work waiting for a worker" only
+            # if the predicate holds for a submitted, not yet dispatched future (state PENDING)
+            R.check(fc, "R-RESPAWN-GUARD", f"{f.short}: the pending count of the respawn guard includes submitted, not yet dispatched work", f.short, norm(x)[:80],
+                    "the respawn guard counts only pending entries whose future satisfies a state predicate that is false for a submitted, not yet "
+                    "dispatched task (Future.running() is true only after dispatch): when the last worker leaves on its idle timeout while such work "
+                    "is waiting, the count is 0, nobody is re-spawned and the task is stranded", e.loc(f, x))
+            return "NP"
         if isinstance(x, ast.Call) and isinstance(x.func, ast.Name) and x.func.id == "len" and len(x.args) == 1:
             o = e.objs(f, x.args[0])
             if o & a.pending:
@@ -420,3 +470,161 @@ def r_spawn_site(e, R):
                            "one task per worker can execute concurrently", e.loc(wf, c))
     R.ok("R-SPAWN-SITE", "worker main executes calls sequentially (no thread/process creation)", None)
     R.floor("R-SPAWN-SITE", 7)
+
+
+# ---------------------------------------------------------------------------
+# R-QUEUE-CAP
+# ---------------------------------------------------------------------------
+def _capacity_param(e, cq_cls):
+    """name of the constructor parameter of the call-queue class that becomes the capacity of the underlying mp queue."""
+    init = e.pt.lookup_method(cq_cls, "__init__")
+    if init is None:
+        return None
+    fi = init if hasattr(init, "qualname") else e.prog.funcs[init]
+    for c in [n for n in func_nodes(fi) if isinstance(n, ast.Call)]:
+        if isinstance(c.func, ast.Attribute) and c.func.attr == "__init__" and isinstance(c.func.value, ast.Call) and isinstance(c.func.value.func, ast.Name) \
+                and c.func.value.func.id == "super":
+            cand = [c.args[0]] if c.args else [k.value for k in c.keywords if k.arg == "maxsize"]
+            if cand and isinstance(cand[0], ast.Name) and cand[0].id in fi.params:
+                return fi, cand[0].id
+    return None
+
+
+def _module_int(e, mod, name, depth=0):
+    """value of a module-level integer constant, through `from .x import NAME`."""
+    vals = []
+    for s in mod.tree.body:
+        if isinstance(s, ast.Assign) and any(isinstance(t_, ast.Name) and t_.id == name for t_ in s.targets):
+            vals.append(s.value.value if isinstance(s.value, ast.Constant) and isinstance(s.value.value, int) and not isinstance(s.value.value, bool) else None)
+        if isinstance(s, ast.ImportFrom) and depth < 3:
+            for al in s.names:
+                if (al.asname or al.name) == name:
+                    base = mod.name.split(".") if mod.is_pkg else mod.name.split(".")[:-1]
+                    if s.level:
+                        base = base[:len(base) - (s.level - 1)]
+                        target = ".".join(base + ([s.module] if s.module else []))
+                    else:
+                        target = s.module
+                    m2 = e.prog.modules.get(target)
+                    if m2 is not None:
+                        vals.append(_module_int(e, m2, al.name, depth + 1))
+    return vals[0] if len(vals) == 1 else None
+
+
+def r_queue_cap(e, R):
+    """The manager thread stops filling the call queue when it is full and is woken by submits and results only, never by a worker
+    taking an item.  With a capacity below the number of workers, a burst of long tasks reaches only `capacity` workers until the first
+    result comes back: capacity >= max_workers *in force* is a necessary condition of "max_workers long tasks do run simultaneously"."""
+    a = e.anchors
+    mw = a.max_workers_attr
+    sites = []
+    for q, f in e.prog.funcs.items():
+        if q not in a.executor_funcs:
+            continue
+        for c in [n for n in func_nodes(f) if isinstance(n, ast.Call)]:
+            if set(e.pt.ev(f, c)) & a.callq:
+                sites.append((f, c))
+    if len(sites) != 1:
+        raise AnalysisError(f"call queue allocation site not unique ({len(sites)})")
+    f, c = sites[0]
+    cq_cls = {o[2] for o in a.callq}
+    cp = _capacity_param(e, sorted(cq_cls)[0])
+    if cp is None:
+        raise AnalysisError("call queue class: the constructor parameter that becomes the queue capacity is not recognised")
+    fi, pname = cp
+    idx = fi.params.index(pname) - 1
+    arg = next((k.value for k in c.keywords if k.arg == pname), c.args[idx] if idx < len(c.args) else None)
+    R.check(arg is not None, "R-QUEUE-CAP", "the call queue is created with an explicit capacity", f.short, norm(c)[:60],
+            "the call queue is created without a capacity: the manager moves every submitted task into it at once and none of them can be cancelled any more",
+            e.loc(f, c))
+    if arg is None:
+        return
+    # source expressions of the capacity: local definitions in the allocating function, and what callers pass for the parameter
+    sources = []   # (owner func, expr)
+
+    def expand(fn, x, depth=0):
+        if isinstance(x, ast.Name) and x.id in fn.params and depth < 3:
+            got = False
+            for d in e.local_defs(fn, x.id):
+                if not (isinstance(d, ast.Constant) and d.value is None):
+                    expand(fn, d, depth + 1)
+                    got = True
+            for q2, f2 in e.prog.funcs.items():
+                for c2 in [n for n in func_nodes(f2) if isinstance(n, ast.Call)]:
+                    if fn.qualname in e.callees_of(c2):
+                        i2 = fn.params.index(x.id) - (1 if fn.cls else 0)
+                        a2 = next((k.value for k in c2.keywords if k.arg == x.id), c2.args[i2] if i2 < len(c2.args) and not any(isinstance(z, ast.Starred) for z in c2.args) else None)
+                        if a2 is not None:
+                            expand(f2, a2, depth + 1)
+            return
+        if isinstance(x, ast.Name) and x.id in fn.locals:
+            defs = [d for d in e.local_defs(fn, x.id) if not (isinstance(d, ast.Constant) and d.value is None)]
+            for d in defs:
+                expand(fn, d, depth + 1)
+            return
+        sources.append((fn, x))
+    expand(f, arg)
+    if not sources:
+        raise AnalysisError("call queue capacity: no source expression found")
+    cpu_quals = {q for q in e.prog.funcs if q.endswith(":cpu_count")}
+
+    def resizable(cls_q):
+        """some method other than the constructor stores the pool-size field."""
+        for cq, cl in e.prog.classes.items():
+            if cq == cls_q:
+                for nm, m in cl.methods.items():
+                    if nm != "__init__" and any(isinstance(n, ast.Attribute) and n.attr == mw and isinstance(n.ctx, ast.Store) for n in func_nodes(m)):
+                        return m
+        return None
+    for fn, x in sources:
+        def classify(n, fn=fn):
+            if isinstance(n, ast.Attribute) and n.attr == mw and isinstance(n.value, ast.Name) and n.value.id == fn.params[0]:
+                return "M"
+            if isinstance(n, ast.Call) and e.callees_of(n) & cpu_quals:
+                return "CPU"
+            if isinstance(n, ast.Name) and n.id not in fn.locals:
+                v = _module_int(e, fn.module, n.id)
+                if isinstance(v, int):
+                    return ("const", v)
+            return None
+
+        def cl2(n):
+            r = classify(n)
+            return r
+
+        worst = None
+        try:
+            for M in (1, 2, 3, 7, 61):
+                for CPU in (1, 2, 16):
+                    env = {"M": M, "CPU": CPU}
+                    v = guards.eval_guard(x, _ConstEnv(env), _wrap(cl2))
+                    if not isinstance(v, int):
+                        raise guards.Inconclusive(f"capacity is not an integer term: {norm(x)}")
+                    if v < M and worst is None:
+                        worst = (M, CPU, v)
+        except guards.Inconclusive as ex:
+            raise AnalysisError(f"call queue capacity: {ex}")
+        rz = resizable(fn.cls.qualname) if fn.cls is not None else None
+        uses_m = any(classify(n) == "M" for n in ast.walk(x))
+        cons = f"capacity {norm(x)}" + (" of a resizable pool" if rz is not None else "")
+        why = []
+        if worst is not None:
+            why.append(f"the call queue holds {worst[2]} items for max_workers={worst[0]} (cpu_count={worst[1]})")
+        if rz is not None:
+            why.append(f"{rz.short} changes the pool size after the call queue was created with capacity `{norm(x)}`"
+                       + (" (computed from the *first* max_workers)" if uses_m else " (independent of max_workers)"))
+        R.check(not why, "R-QUEUE-CAP", f"{fn.short}: call queue capacity `{norm(x)}` >= max_workers in force", fn.short, cons,
+                "; ".join(why) + ": the manager stops feeding the call queue when it is full and is woken by submits and results only, not when a worker takes an "
+                "item, so a burst of long tasks reaches only `capacity` of the idle workers until the first result comes back", e.loc(fn, x))
+    R.floor("R-QUEUE-CAP", 2)
+
+
+class _ConstEnv(dict):
+    def __missing__(self, k):
+        if isinstance(k, tuple) and k[0] == "const":
+            return k[1]
+        raise KeyError(k)
+
+
+def _wrap(cl):
+    return cl
